@@ -19,7 +19,7 @@ pub const INFO: PropInfo = PropInfo {
            non-trivial = at least one event was received; distinct = distinct hash of (scripts, producer kinds, socket behaviour)",
     state_measure: "(producer kind, script shape: burst/yield/sleep/finish-with-queue, reader pace) combinations",
     assumptions: &["messages are valid UTF-8 (Rust strings)", "total planned stream time stays below the keep-alive timeout"],
-    expected_probes: &["c17.burst_before_yield", "c17.finish_with_nonempty_queue", "c17.zero_messages", "c17.message_with_cr", "c17.message_with_lf", "c17.backpressure_fired", "c17.followup_answered", "c17.sleep_in_producer", "c17.empty_message", "c17.more_than_32_messages", "c17.more_than_256_messages", "c17.stream_combinator", "c17.last_message_rejected_by_filter", "c17.reader_stalls_for_seconds"],
+    expected_probes: &["c17.burst_before_yield", "c17.finish_with_nonempty_queue", "c17.zero_messages", "c17.message_with_cr", "c17.message_with_lf", "c17.backpressure_fired", "c17.followup_answered", "c17.sleep_in_producer", "c17.empty_message", "c17.more_than_32_messages", "c17.more_than_256_messages", "c17.stream_combinator", "c17.last_message_rejected_by_filter", "c17.reader_stalls_for_seconds", "c17.producer_silent_for_many_seconds"],
 };
 
 #[derive(Clone, Debug, Serialize, Deserialize, PartialEq)]
@@ -60,6 +60,9 @@ pub fn expected_messages(pl: &StreamPlan) -> Vec<String> {
 #[derive(Clone, Debug, Serialize, Deserialize)]
 pub struct Scenario {
     pub streams: Vec<StreamPlan>,
+    /// tuning knob: `OHKAMI_KEEPALIVE_TIMEOUT` for this run (None = 42 s); raised when a producer is silent for long
+    #[serde(default)]
+    pub keepalive_s: Option<u64>,
 }
 
 thread_local! {
@@ -141,7 +144,19 @@ fn gen_plan(_i: usize) -> StreamPlan {
 
 pub fn generate(_cfg: &RunCfg, _out: &mut Outcome) -> Scenario {
     let n = 1 + t::weighted(&[5, 3, 2]);
-    Scenario { streams: (0..n).map(gen_plan).collect() }
+    let mut streams: Vec<StreamPlan> = (0..n).map(gen_plan).collect();
+    // a producer that is silent for a long time (before the first message, between two, before it completes): whatever
+    // the server does meanwhile (heart-beats, deadlines) must leave the body valid and the messages intact
+    let mut keepalive_s = None;
+    if t::chance(1, 10) {
+        let pl = &mut streams[0];
+        if pl.abort_after.is_none() && pl.stall.is_none() {
+            let at = t::draw(pl.steps.len() as u32 + 1) as usize;
+            pl.steps.insert(at, Step::Sleep(t::pick(&[9_000u64, 14_000, 15_000, 16_000, 31_000, 61_000])));
+            keepalive_s = Some(300);
+        }
+    }
+    Scenario { streams, keepalive_s }
 }
 
 pub fn run(cfg: &RunCfg, direct: Option<&serde_json::Value>) -> Outcome {
@@ -343,6 +358,10 @@ fn execute(sc: &Scenario, out: &mut Outcome) {
     out.scenario = serde_json::to_value(sc).unwrap_or(serde_json::Value::Null);
     out.scenario_hash = rt::fnv64(serde_json::to_string(sc).unwrap_or_default().as_bytes());
     PLANS.with(|p| *p.borrow_mut() = sc.streams.clone());
+    if let Some(k) = sc.keepalive_s {
+        rt::set_keepalive_timeout(k);
+        out.probe("c17.producer_silent_for_many_seconds");
+    }
     for pl in &sc.streams {
         let msgs: Vec<&String> = pl.steps.iter().filter_map(|s| if let Step::Send(m) = s { Some(m) } else { None }).collect();
         if msgs.is_empty() {
@@ -425,7 +444,9 @@ fn execute(sc: &Scenario, out: &mut Outcome) {
                 return;
             }
             c.stall = pl.stall.map(|(a, ms)| (a, ms * MS));
-            let r = c.recv_paced(false, DEFAULT_TIMEOUT, pl.read_max, pl.read_pause_ms * MS).await;
+            // a patient client: the producer may be silent for longer than the default time-out
+            let patience = DEFAULT_TIMEOUT + pl.steps.iter().map(|s| if let Step::Sleep(ms) = s { *ms * MS } else { 0 }).sum::<u64>();
+            let r = c.recv_paced(false, patience, pl.read_max, pl.read_pause_ms * MS).await;
             let ok = r.is_ok();
             o.borrow_mut().first = Some(r);
             if ok {
